@@ -55,6 +55,21 @@ def native_replay(path, search=0):
     except Exception as e:
         return {'outcome': 'error', 'stderr': str(e)}
 
+def _resolves(dotted):
+    import importlib
+    parts = dotted.split('.')
+    for n in range(len(parts), 0, -1):
+        try: o = importlib.import_module('.'.join(parts[:n]))
+        except ImportError: continue
+        try:
+            for p in parts[n:]:
+                if isinstance(o, type) and p.startswith('__') and not p.endswith('__'): p = '_%s%s' % (o.__name__.lstrip('_'), p)   # private name
+                o = o.__dict__[p] if isinstance(o, type) and p in o.__dict__ else getattr(o, p)
+            return True
+        except (AttributeError, KeyError):
+            return False
+    return False
+
 def main(argv=None):
     ap = argparse.ArgumentParser()
     ap.add_argument('prop'); ap.add_argument('tier', nargs='?', default=os.environ.get('VERIF_TIER', 'quick'))
@@ -78,12 +93,22 @@ def main(argv=None):
     except Exception as e:
         print('CHECKER-BROKEN property=%s: specification does not agree with its independent oracle: %s: %s' % (prop, type(e).__name__, e))
         return 3
-    obs = oblig.load(prop)
-    jobs = []
+    try:
+        obs = oblig.load(prop)
+    except (ImportError, AttributeError) as e:
+        # the obligations name modules / functions of the repository: if one is gone the contracts are out of date (undecided)
+        print('UNDECIDED property=%s: the contracts refer to something the repository no longer has (%s: %s)' % (prop, type(e).__name__, e))
+        return 2
+    jobs = []; gone = []
     for k, ob in enumerate(obs):
+        miss = [f for f in ob.funcs if not _resolves(f)]
+        if miss:
+            gone.append((ob.oid, miss)); continue
         for iid, case in ob.instances(tier):
             if a.only and not re.search(a.only, iid): continue
             jobs.append((prop, k, iid, case, tier, seed))
+    if gone and not a.list:
+        for oid, miss in gone: print('UNDECIDED obligation=%s function(s) under contract not found in the repository: %s' % (oid, ', '.join(miss)))
     if a.list:
         for j in jobs: print(obs[j[1]].cls, j[2])
         return 0
@@ -173,6 +198,7 @@ def main(argv=None):
         print('UNDECIDED obligation=%s %s' % (r['id'], r.get('reason')))
     for b in broken:
         print('CHECKER-BROKEN property=%s: %s' % (prop, b))
+    if gone: undecided = list(undecided) + [{'id': oid, 'reason': 'function under contract not found'} for oid, _ in gone]
     if not a.no_evidence and not a.only:
         write_evidence(prop, tier, seed, results, proved, bounded, known, violations, undecided, broken, canary_ok, wall, obs)
     nd = sum(1 for r in proved if r['status'] == 'discharged')
@@ -274,4 +300,13 @@ def _z3v():
         return '?'
 
 if __name__ == '__main__':
-    sys.exit(main())
+    try:
+        rc = main()
+    except SystemExit:
+        raise
+    except BaseException as e:
+        # an exception of the driver itself is never a verdict about the code
+        print('CHECKER-BROKEN: driver exception %s: %s' % (type(e).__name__, e))
+        traceback.print_exc()
+        rc = 3
+    sys.exit(rc)
